@@ -126,6 +126,20 @@ def connect_polling_rules(A, cf, rule):
         loops = v.calls('self.start_background_task(self._write_loop)') + \
             v.calls('self.start_background_task(self._read_loop_polling)')
         upg = v.calls('self._connect_websocket(url, headers, engineio_path)')
+        rest = [i for i in v.kinds('iter') if txt(v.ev[i].expr) == 'p.packets[1:]']
+        A.check(bool(rest) and (not upg or rest[0] < upg[0][0]) and rest[0] > si,
+                rule + '.handshake-packets', '%s: packets that arrive together with OPEN are '
+                'dispatched after the connect event and before an upgrade is attempted' % name,
+                A.site(fi), key='%s-connect-polling-rest' % name, detail=v.describe(60),
+                behaviour='messages the server sends from its connect handler are lost when the '
+                          'upgrade succeeds')
+        for i in rest:
+            if v.ev[i].pol:
+                rc = [j for j, c in v.calls('self._receive_packet(_x)') if j > i and
+                      txt(c['x']).startswith('_elem(p.packets[1:], ')]
+                A.check(bool(rc), rule + '.handshake-packets', '%s: every such packet goes to '
+                        '_receive_packet' % name, A.site(fi), key='%s-connect-polling-rest-recv'
+                        % name, detail=v.describe(60))
         if p.outcome == 'return':
             if upg and (txt(v.ev[upg[0][0]].expr), True) in v.guard_atoms():
                 A.check(not loops, rule + '.loops', '%s: after a successful upgrade the polling '
